@@ -29,6 +29,7 @@ import (
 	osexec "os/exec"
 	"path/filepath"
 	"runtime"
+	"runtime/pprof"
 	"sort"
 	"strconv"
 	"strings"
@@ -132,6 +133,12 @@ func workerMain() {
 		vk.Fatalf("setrlimit: %v", err)
 	}
 	runtime.GOMAXPROCS(2)
+	if pf := os.Getenv("C11_PROF"); pf != "" {
+		if fh, err := os.Create(fmt.Sprintf("%s.%d", pf, os.Getpid())); err == nil {
+			pprof.StartCPUProfile(fh)
+			defer pprof.StopCPUProfile()
+		}
+	}
 	reg := loadRegistry()
 	roots := buildRoots(reg)
 	mark := openMarker(*markFlag)
@@ -146,15 +153,18 @@ func workerMain() {
 			}
 			mark.set(0, "", "", "", nil)
 			x := newExec(reg, roots, mark, &u)
-			res := x.run(&u)
-			mark.set(0, "", "", "", nil)
-			data, e := json.Marshal(res)
-			if e != nil {
-				vk.Fatalf("worker: marshal: %v", e)
+			send := func(res *unitResult) {
+				mark.set(0, "", "", "", nil)
+				data, e := json.Marshal(res)
+				if e != nil {
+					vk.Fatalf("worker: marshal: %v", e)
+				}
+				out.Write(data)
+				out.WriteByte('\n')
+				out.Flush()
 			}
-			out.Write(data)
-			out.WriteByte('\n')
-			out.Flush()
+			x.emit = send
+			send(x.run(&u))
 		}
 		if err != nil {
 			return
@@ -219,6 +229,7 @@ type killer struct {
 // that killed a worker.
 func runUnit(w **workerProc, dir string, u unit, caseTimeout time.Duration) (*unitResult, []killer) {
 	var killers []killer
+	var merged *unitResult
 	for attempt := 0; ; attempt++ {
 		if attempt > 400 {
 			vk.Fatalf("unit %d (%s root %d): more than 400 worker deaths", u.ID, u.Kind, u.Root)
@@ -236,10 +247,11 @@ func runUnit(w **workerProc, dir string, u unit, caseTimeout time.Duration) (*un
 			err  error
 		}
 		ch := make(chan rd, 1)
-		go func(r *bufio.Reader) {
+		read := func(r *bufio.Reader) {
 			l, err := r.ReadBytes('\n')
 			ch <- rd{l, err}
-		}((*w).stdout)
+		}
+		go read((*w).stdout)
 		var got rd
 		timedOut := false
 		lastID, lastChange := -1, time.Now()
@@ -247,7 +259,20 @@ func runUnit(w **workerProc, dir string, u unit, caseTimeout time.Duration) (*un
 		for {
 			select {
 			case got = <-ch:
-				break wait
+				if got.err != nil {
+					break wait
+				}
+				var res unitResult
+				if err := json.Unmarshal(got.line, &res); err != nil {
+					vk.Fatalf("unit %d: bad worker result: %v", u.ID, err)
+				}
+				merged = mergeResult(merged, &res)
+				if !res.Partial {
+					return merged, killers
+				}
+				u.StartEnc++
+				lastChange = time.Now()
+				go read((*w).stdout)
 			case <-time.After(500 * time.Millisecond):
 				id, _, _, _, _ := readMarker((*w).mark)
 				if id != lastID {
@@ -256,16 +281,13 @@ func runUnit(w **workerProc, dir string, u unit, caseTimeout time.Duration) (*un
 					timedOut = true
 					(*w).cmd.Process.Kill()
 					got = <-ch
+					for got.err == nil {
+						go read((*w).stdout)
+						got = <-ch
+					}
 					break wait
 				}
 			}
-		}
-		if got.err == nil {
-			var res unitResult
-			if err := json.Unmarshal(got.line, &res); err != nil {
-				vk.Fatalf("unit %d: bad worker result: %v", u.ID, err)
-			}
-			return &res, killers
 		}
 		// the worker died
 		(*w).cmd.Wait()
@@ -302,16 +324,6 @@ func firstLine(s string) string {
 	return ""
 }
 
-type plan struct {
-	rtDev      int
-	rtDepth    []int
-	corpusDev  int
-	corpusLim  []int
-	fullEntry  map[string]bool // entry points that get the full hostile corpus; the others get the <=0-deviation corpus
-	otherDev   int
-	hostShards int
-}
-
 func main() {
 	log.Root().SetHandler(log.DiscardHandler())
 	if len(os.Args) > 1 && os.Args[1] == "--worker" {
@@ -330,59 +342,124 @@ func main() {
 		}
 		return
 	}
+	if os.Getenv("C11_STATS") != "" {
+		// development aid: size of every root (valid encodings only, nothing hostile is decoded)
+		for _, rt := range roots {
+			p, c, _ := buildValue(reg, rt.T, nil)
+			e, err := encodeFor(epBytes, p)
+			top, _ := parseItems(reg, e)
+			n := 0
+			walk(top, func(*node) { n++ })
+			alts := 0
+			for _, pt := range c.pts {
+				alts += pt.n - 1
+			}
+			fmt.Printf("%-50s slots=%4d alts=%5d len=%5d nodes=%4d err=%v\n", rt.Name, len(c.pts), alts, len(e), n, err)
+		}
+		return
+	}
 	if r.ReplayPath != "" {
 		replayCase(r, reg, roots)
 		return
 	}
 
 	// ---- the plan ----
-	var pl plan
-	if r.Quick() {
-		pl = plan{rtDev: 2, rtDepth: []int{0, 2}, corpusDev: 1, corpusLim: []int{2}, otherDev: 0, hostShards: 1}
-	} else {
-		pl = plan{rtDev: 3, rtDepth: []int{0, 0, 1}, corpusDev: 1, corpusLim: []int{0}, otherDev: 1, hostShards: 4}
+	rtDev, rtDepth := 2, []int{0, 2}
+	if !r.Quick() {
+		rtDev, rtDepth = 3, []int{0, 0, 1}
 	}
 	var units []unit
 	add := func(u unit) {
 		u.ID = len(units)
 		units = append(units, u)
 	}
+	type size struct {
+		slots, length, nodes int
+		altsByDepth          map[int]int // depth limit (0 = all) -> number of single deviations
+	}
+	sizes := make([]size, len(roots))
 	slots := make([]int, len(roots))
 	for i := range roots {
-		_, c, _ := buildValue(reg, roots[i].T, nil)
-		slots[i] = len(c.pts)
+		p, c, _ := buildValue(reg, roots[i].T, nil)
+		sz := size{slots: len(c.pts), altsByDepth: map[int]int{}}
+		for _, pt := range c.pts {
+			for _, d := range []int{0, 1, 2} {
+				if d == 0 || pt.depth <= d {
+					sz.altsByDepth[d] += pt.n - 1
+				}
+			}
+		}
+		if pv, _ := vk.Catch(func() {
+			e, _ := encodeFor(epBytes, p)
+			top, _ := parseItems(reg, e)
+			sz.length = len(e)
+			walk(top, func(*node) { sz.nodes++ })
+		}); pv {
+			vk.Fatalf("encoding the default value of %s panics", roots[i].Name)
+		}
+		sizes[i], slots[i] = sz, sz.slots
 	}
-	add(unit{Kind: "maporder", Cost: 50})
+	// estimated cost of the hostile cases of one encoding, in microseconds
+	perEncoding := func(sz size, reduce bool) int {
+		cases := sz.length*17 + sz.nodes*30
+		if reduce {
+			cases = sz.nodes * 100
+			if cases > sz.length*17+sz.nodes*30 {
+				cases = sz.length*17 + sz.nodes*30
+			}
+		}
+		return cases * (4 + sz.length/40)
+	}
+	add(unit{Kind: "maporder", Cost: 1 << 40})
 	for i := range roots {
 		n := 1
-		if slots[i] > 40 {
-			n = 4
+		est := slots[i] * slots[i] * 30 * (4 + sizes[i].length/40) // pairs x alternatives^2, microseconds
+		if !r.Quick() {
+			est *= slots[i]/4 + 1
 		}
-		if slots[i] > 120 {
-			n = 16
-		}
-		if !r.Quick() && slots[i] > 40 {
-			n *= 4
+		for n < 256 && est/n > 8e6 {
+			n *= 2
 		}
 		for s := 0; s < n; s++ {
-			add(unit{Kind: "rt", Root: i, Shard: s, NShards: n, MaxDev: pl.rtDev, DepthLim: pl.rtDepth, Cost: slots[i] * slots[i] / n})
+			add(unit{Kind: "rt", Root: i, Shard: s, NShards: n, MaxDev: rtDev, DepthLim: rtDepth, Cost: est / n})
 		}
 	}
+	devBudget := 4e6 // microseconds of estimated work per (root, entry point) in the quick tier
 	for i := range roots {
 		for _, ep := range roots[i].Entries {
-			dev, lim := pl.corpusDev, pl.corpusLim
-			if ep != epBytes && r.Quick() {
-				dev, lim = pl.otherDev, nil
+			reduce := r.Quick()
+			add(unit{Kind: "hostile", Root: i, Entry: ep, Shard: 0, NShards: 1, Corpus: "base", Reduce: reduce, Cost: 3 * perEncoding(sizes[i], reduce)})
+			// the 1-deviation corpus
+			lim, ok := 0, true
+			devReduce := reduce || ep != epBytes || sizes[i].length > 2048
+			if r.Quick() {
+				ok = false
+				if ep == epBytes {
+					for _, d := range []int{0, 2, 1} {
+						if float64(sizes[i].altsByDepth[d]*perEncoding(sizes[i], true)) <= devBudget {
+							lim, ok = d, true
+							break
+						}
+					}
+				}
 			}
+			if !ok || sizes[i].altsByDepth[lim] == 0 {
+				continue
+			}
+			est := sizes[i].altsByDepth[lim] * perEncoding(sizes[i], devReduce)
 			n := 1
-			if slots[i] > 60 {
-				n = pl.hostShards
+			for n < 512 && est/n > 8e6 {
+				n *= 2
+			}
+			var dl []int
+			if lim > 0 {
+				dl = []int{lim}
 			}
 			for s := 0; s < n; s++ {
-				add(unit{Kind: "hostile", Root: i, Entry: ep, Shard: s, NShards: n, MaxDev: dev, DepthLim: lim, Cost: slots[i] * slots[i] * (dev*20 + 1) / n})
+				add(unit{Kind: "hostile", Root: i, Entry: ep, Shard: s, NShards: n, Corpus: "dev", MaxDev: 1, DepthLim: dl, Reduce: devReduce, Cost: est / n})
 			}
 		}
-		add(unit{Kind: "short", Root: i, Cost: 5})
+		add(unit{Kind: "short", Root: i, Cost: 100000})
 	}
 
 	if only := os.Getenv("C11_ONLY"); only != "" {
@@ -558,8 +635,8 @@ func main() {
 	r.Set("fields_not_populated", opq)
 	r.Set("max_alloc_bytes_per_input_byte_x1000", maxRatio)
 	r.Set("max_alloc_case", maxRatioAt)
-	r.Set("bounds", map[string]interface{}{"round_trip_max_fields_off_default": pl.rtDev, "round_trip_depth_limit_per_deviation": pl.rtDepth,
-		"hostile_corpus_max_fields_off_default": pl.corpusDev, "substitution_bytes": fmt.Sprintf("%x", substSet), "hostile_items": len(hostileItems()),
+	r.Set("bounds", map[string]interface{}{"round_trip_max_fields_off_default": rtDev, "round_trip_depth_limit_per_deviation": rtDepth,
+		"hostile_corpus_max_fields_off_default": 1, "substitution_bytes": fmt.Sprintf("%x", substSet), "hostile_items": len(hostileItems()),
 		"alloc_bound": fmt.Sprintf("%d + %d*len(input) (+%d for reader entry points)", allocConst, allocPerByte, 2*readerLimit), "address_space_limit": memLimit})
 	r.Set("states", counters["distinct_encodings"])
 	r.Set("transitions", decodes)
@@ -626,4 +703,47 @@ func replayCase(r *vk.Run, reg *registry, roots []root) {
 		}
 	}
 	r.Finish()
+}
+
+// mergeResult adds b (a partial or final result of the same unit) to a.
+func mergeResult(a, b *unitResult) *unitResult {
+	if a == nil {
+		b.Partial = false
+		return b
+	}
+	for k, v := range b.Counters {
+		a.Counters[k] += v
+	}
+	for k, v := range b.Pairs {
+		a.Pairs[k] += v
+	}
+	for k, v := range b.Outcomes {
+		a.Outcomes[k] += v
+	}
+	for k, v := range b.Observed {
+		if _, ok := a.Observed[k]; !ok {
+			a.Observed[k] = v
+		}
+	}
+	a.Opaque = append(a.Opaque, b.Opaque...)
+	if b.Slots > a.Slots {
+		a.Slots = b.Slots
+	}
+	if b.MaxRatioX > a.MaxRatioX {
+		a.MaxRatioX, a.MaxRatioAt = b.MaxRatioX, b.MaxRatioAt
+	}
+	if b.Err != "" {
+		a.Err = b.Err
+	}
+outer:
+	for _, v := range b.Violations {
+		for _, w := range a.Violations {
+			if w.Key == v.Key {
+				w.Count += v.Count
+				continue outer
+			}
+		}
+		a.Violations = append(a.Violations, v)
+	}
+	return a
 }
